@@ -131,6 +131,65 @@ class Index:
                     out.append(t)
         return out
 
+    def class_constants(self, key) -> dict:
+        """name -> ast.Constant for class-body `NAME = <literal>` bindings seen through the MRO of `key` (nearest class wins),
+        excluding names that some method of those classes assigns on the instance"""
+        import ast
+        out = {}
+        assigned = set()
+        for k in self.mro(key):
+            cdef = self.classes.get(k)
+            if cdef is None:
+                continue
+            for st in cdef.body:
+                if isinstance(st, ast.Assign) and len(st.targets) == 1 and isinstance(st.targets[0], ast.Name):
+                    v = st.value
+                    if isinstance(v, ast.Constant) or (isinstance(v, ast.UnaryOp) and isinstance(v.operand, ast.Constant)):
+                        out.setdefault(st.targets[0].id, v)
+                    else:
+                        out.setdefault(st.targets[0].id, None)
+            for n in ast.walk(cdef):
+                if isinstance(n, ast.Attribute) and isinstance(n.ctx, (ast.Store, ast.Del)) and isinstance(n.value, ast.Name) and n.value.id in ('self', 'cls'):
+                    assigned.add(n.attr)
+                if isinstance(n, ast.Call) and isinstance(n.func, ast.Name) and n.func.id == 'setattr':
+                    assigned.add('*')
+        if '*' in assigned:
+            return {}
+        return {k_: v for k_, v in out.items() if v is not None and k_ not in assigned}
+
+    def specialised(self, key, meth):
+        """the method `meth` as an instance of exactly class `key` runs it: found through the MRO, with `self.NAME` replaced by the
+        class-level literal NAME resolves to, tests on those literals decided and getattr(obj, 'literal') folded to obj.literal"""
+        import ast, copy
+        tgt = self.lookup_method(key, meth)
+        if tgt is None:
+            return None
+        consts = self.class_constants(key)
+        f = copy.deepcopy(tgt[2])
+        if not consts:
+            return f
+        a = f.args.posonlyargs + f.args.args
+        sname = a[0].arg if a else 'self'
+
+        class Sub(ast.NodeTransformer):
+            def visit_Attribute(self, n):
+                self.generic_visit(n)
+                if isinstance(n.ctx, ast.Load) and isinstance(n.value, ast.Name) and n.value.id == sname and n.attr in consts:
+                    return ast.copy_location(copy.deepcopy(consts[n.attr]), n)
+                return n
+
+            def visit_Call(self, n):
+                self.generic_visit(n)
+                if isinstance(n.func, ast.Name) and n.func.id == 'getattr' and len(n.args) == 2 and not n.keywords \
+                        and isinstance(n.args[1], ast.Constant) and isinstance(n.args[1].value, str) and n.args[1].value.isidentifier():
+                    return ast.copy_location(ast.Attribute(value=n.args[0], attr=n.args[1].value, ctx=ast.Load()), n)
+                return n
+        f = Sub().visit(f)
+        from . import normalise
+        f.body = normalise._prune_constant_tests(f.body) or [ast.Pass()]
+        ast.fix_missing_locations(f)
+        return f
+
     def is_property(self, key, name):
         for k in self.mro(key):
             m = self.methods(k).get(name)
